@@ -444,6 +444,48 @@ class Monitor:
         # families of symbolic groups: every group with a positive count must have been exercised on an iteration
         # path; families of fixed groups were stored with concrete indices and checked at the store
 
+    def on_symstore(self, ex, obj, name, val):
+        """an attribute stored under a looked-up (symbolic) name: the key/value loop of CFG-VALGET / CFG-VALSET parsing.
+        One arbitrary item (the loop is cut, so this iteration starts at an arbitrary offset of an arbitrary payload):
+        the key is the little-endian 32-bit word at the item's offset, the attribute is stored under the name the
+        documented lookup gives for that key, and its value is the decoding - by that key's type - of the bytes that
+        follow the key."""
+        fr = next((f for f in reversed(ex.frames) if f.finfo is not None
+                   and f.finfo.qualname.endswith("UBXMessage._set_attribute_cfgval")), None)
+        if fr is None:
+            return False
+        st = ex.st
+        env = fr.env
+        P = st.rec(obj)["fields"].get("_payload")
+        off, key, keyname, att = env.get("offset"), env.get("key"), env.get("keyname"), env.get("att")
+        lab = self.label
+        if not isinstance(P, SBytes) or off is None or key is None:
+            return False
+        word = ex.bm.subscript(P, slice(off, mk_int(zint(off) + 4), None))
+        st.prove(f"{lab}/C14:item:key-read-at-its-offset",
+                 ex.bm.equals(key, ex.bm.int_from_bytes(word, "little", signed=False)), kind="ensures",
+                 detail="key == little-endian 32-bit word at the item's offset", assume_after=False)
+        same_name = name is keyname or (isinstance(name, SStr) and isinstance(keyname, SStr) and len(name.pieces) == len(keyname.pieces)
+                                        and all(a is b or (isinstance(a, str) and a == b) for a, b in zip(name.pieces, keyname.pieces)))
+        st.prove(f"{lab}/C14:item:stored-under-the-lookup-name", bool(same_name), kind="ensures",
+                 detail="the attribute name is the one cfgkey2name returned for the key (unchanged)", assume_after=False)
+        if isinstance(att, str) and re.fullmatch(r"[EILUXR]\d{3}", att):
+            n = int(att[1:4])
+            vb = ex.bm.subscript(P, slice(mk_int(zint(off) + 4), mk_int(zint(off) + 4 + n), None))
+            L = att[0]
+            if L in "EILU":
+                want = ex.bm.int_from_bytes(vb, "little", signed=(L == "I"))
+            elif L == "X":
+                want = vb
+            else:
+                want = None
+            if want is not None:
+                # (a value cut short by the end of the payload decodes what is there - the constructor's own length
+                # handling; the comparison is on the same slice expression)
+                st.prove(f"{lab}/C14:item:value-decodes-by-the-key's-type", ex.bm.equals(val, want), kind="ensures",
+                         detail=f"value == {att} decoding of the bytes following the key", assume_after=False)
+        return True
+
     def conforming_must_parse(self, ex, exc):
         c = self.conf()
         if c is None or not ex.st.ghost.get("conf_assumed"):
@@ -817,6 +859,43 @@ def replay_instance(o):
             if got is not None and want is not None and _def_name(got, mode) != want:
                 info.update(reproduced=True, observed=f"payload {pl.hex()} is parsed with definition {_def_name(got, mode)}, the selection rules prescribe {want}")
                 info["call"] = f"UBXMessage({cls!r}, {mid!r}, {mode}, payload={pl!r})"
+                break
+    elif what.startswith("C14:item"):
+        # native witness: CFG-VALGET / VALSET payloads with documented and undocumented keys, parsed by the real code
+        import random as _r
+        import struct as _st
+        from contracts.specs import n_cfgkey2name_spec
+        import pyubx2.ubxtypes_configdb as cdb
+        rnd = _r.Random(77)
+        names = list(cdb.UBX_CONFIG_DATABASE)
+        for _ in range(200):
+            body, want, seen = b"", [], set()
+            for _j in range(rnd.randrange(1, 6)):
+                kid = cdb.UBX_CONFIG_DATABASE[rnd.choice(names)][0] if rnd.random() < 0.7 else \
+                    ((rnd.randrange(1, 6) << 28) | rnd.randrange(1 << 24))
+                if kid in seen:
+                    continue
+                seen.add(kid)
+                try:
+                    nm, typ = n_cfgkey2name_spec(kid)
+                except KeyError:
+                    continue
+                sz = int(typ[1:4])
+                vb = bytes(rnd.randrange(256) for _ in range(sz))
+                body += kid.to_bytes(4, "little") + vb
+                v = vb if typ[0] == "X" else (int.from_bytes(vb, "little", signed=(typ[0] == "I")) if typ[0] in "EILU"
+                                             else _st.unpack("<f" if sz == 4 else "<d", vb)[0])
+                want.append((nm, v))
+            pl = bytes([1 if mode == 0 else 0, rnd.randrange(8), 0, 0]) + body
+            try:
+                mm = UBXMessage(cls, mid, mode, payload=pl)
+                got = [(a, getattr(mm, a)) for a in mm.__dict__ if a.startswith("CFG_")]
+            except Exception as e:  # noqa
+                got = [("raised", type(e).__name__)]
+            ok = len(got) == len(want) and all(a == b and (x == y or (x != x and y != y)) for (a, x), (b, y) in zip(got, want))
+            if not ok:
+                info.update(reproduced=True, call=f"UBXMessage({cls!r}, {mid!r}, {mode}, payload=bytes.fromhex('{pl.hex()}'))",
+                            observed=f"parsed items {got[:3]!r}, the payload holds {want[:3]!r}"[:500])
                 break
     elif what.startswith("C02:conforming-payload-parses"):
         info["reproduced"] = exc is not None
